@@ -781,11 +781,18 @@ def parse_tree_to_objgraph(
 
                 if metaattr.ref and not metaattr.cont:
                     # If this is non-containing reference create ObjCrossRef
-                    p = metaattr.scope_provider
-                    rn = metaattr.match_rule_name
+                    # The target class, match rule and RREL expression are
+                    # those of this assignment.
+                    ref_alt = getattr(node.rule, "_tx_ref_alternative", None) or {
+                        "cls": metaattr.cls,
+                        "scope_provider": metaattr.scope_provider,
+                        "match_rule_name": metaattr.match_rule_name,
+                    }
+                    p = ref_alt["scope_provider"]
+                    rn = ref_alt["match_rule_name"]
                     value = ObjCrossRef(
                         obj_name=value,
-                        cls=metaattr.cls,
+                        cls=ref_alt["cls"],
                         position=node[0].position,
                         scope_provider=p,
                         match_rule_name=rn,
@@ -813,11 +820,18 @@ def parse_tree_to_objgraph(
                             # If this is non-containing reference
                             # create ObjCrossRef
 
-                            p = metaattr.scope_provider
-                            rn = metaattr.match_rule_name
+                            ref_alt = getattr(
+                                node.rule, "_tx_ref_alternative", None
+                            ) or {
+                                "cls": metaattr.cls,
+                                "scope_provider": metaattr.scope_provider,
+                                "match_rule_name": metaattr.match_rule_name,
+                            }
+                            p = ref_alt["scope_provider"]
+                            rn = ref_alt["match_rule_name"]
                             value = ObjCrossRef(
                                 obj_name=value,
-                                cls=metaattr.cls,
+                                cls=ref_alt["cls"],
                                 position=n.position,
                                 scope_provider=p,
                                 match_rule_name=rn,
